@@ -12,6 +12,7 @@ From ZV.Stream Require Import WindowModel WindowProofs.
 From ZV.Codec Require Import Frame Encode.
 From ZV.Stream Require Import StoreStream StoreStreamProofs StoreStreamE2E.
 From ZV.Stream Require Import StreamInstProofs.
+From ZV.Stream Require Import StreamInstDict DStreamDict DictUseModel DictUseProofs.
 Import ListNotations.
 Local Open Scope N_scope.
 
@@ -274,3 +275,56 @@ Example C02_end_to_end_history :
       [ {| dc_in := 7; dc_cap := 1 |}; {| dc_in := 7; dc_cap := 2 |}; {| dc_in := 7; dc_cap := 100 |}; {| dc_in := 7; dc_cap := 100 |} ] [] in
   emitted outs = [1; 2; 3; 4; 5] /\ rest = [] /\ last_ret RH None outs = Some (MOk 0).
 Proof. vm_compute. repeat split; try reflexivity; discriminate. Qed.
+
+(* ================= round 2: dictionaries ================= *)
+
+(* streaming decompression WITH a dictionary attached to the context (ZSTD_DCtx_loadDictionary / ZSTD_DCtx_refDDict /
+   ZSTD_initDStream_usingDict / _usingDDict: every frame of the stream starts from the dictionary): for EVERY dictionary d (raw
+   content, or structured: entropy tables + repeat offsets + content), EVERY stream the one-shot specification started from d
+   accepts, EVERY segmentation into ZSTD_decompressStream calls: the statement of C02_dstream_refines_oneshot_R.  The block decoder
+   state a frame starts from is R's state after loading d (Codec/Frame.v decode_frame).  Frames that name a dictionary ID are
+   outside (the model has no dctx->dictID and refuses them): raw-content dictionaries, prefixes kept as dictionaries, structured
+   dictionaries on frames written with ZSTD_c_dictIDFlag = 0. *)
+Theorem C02_dstream_refines_oneshot_R_dict :
+  forall (d : dict) (P : dparams),
+  dp_stableOut P = false -> OBMAX P < UNKNOWN -> MINW <= dp_maxWindow P ->
+  forall (src content : bytes) (calls : list dcall) outs z' rest,
+  bytes_ok src ->
+  Rspec_decode_d d P src = MOk content ->
+  drun RH (r_init_dict d) r_raw r_rle r_cblock r_hash P (Rz_new_d d P) src calls [] = (outs, z', rest) ->
+  exists crest' taken,
+    content = emitted outs ++ crest' /\ src = taken ++ rest /\
+    Forall (ok_ret RH) outs /\
+    (last_ret RH None outs = Some (MOk 0) -> SValid RH (r_init_dict d) r_raw r_rle r_cblock r_hash P rest crest' /\ z_stage z' = ZInit) /\
+    (last_ret RH None outs = Some (MOk 0) -> rest = [] -> emitted outs = content).
+Proof. exact Rdict_dstream_refines_spec. Qed.
+Print Assumptions C02_dstream_refines_oneshot_R_dict.
+
+(* which dictionary a frame is decoded with.  For EVERY history of API events on one ZSTD_DCtx (load / ref / prefix / session and
+   parameter resets / streaming frame starts, Zstandard or skippable / single-call decompressions over n frames) the dictionaries
+   the model of dctx->ddict + dctx->dictUses + ZSTD_getDDict hands to the frames are those of the documented meaning: a loaded or
+   referenced dictionary stays until replaced, a prefix serves the next Zstandard frame only (or one single-call decompression),
+   skippable frames and session resets use nothing, a parameter reset drops everything. *)
+Theorem C02_dict_use_refines_spec :
+  forall (D : Type) (ops : list (dop D)),
+  snd (dd_run D (dd_new D) ops) = snd (spec_run D (Sticky D None) ops).
+Proof. exact dict_use_refines_spec. Qed.
+Print Assumptions C02_dict_use_refines_spec.
+
+(* the single-use prefix (the place of the round-2 finding repaired by d9e9175): from ANY context state, after ZSTD_DCtx_refPrefix p,
+   whatever number of skippable frames and session resets come in between, the next Zstandard frame is decoded with p and the
+   one after it with no dictionary *)
+Theorem C02_dict_prefix_once :
+  forall (D : Type) (s : dd D) (p : option D) (skips1 skips2 : list (dop D)),
+  Forall (neutral D) skips1 -> Forall (neutral D) skips2 ->
+  snd (dd_run D s (OpRefPrefix D p :: skips1 ++ OpFrame D :: skips2 ++ [OpFrame D])) = [p; None].
+Proof. exact prefix_once. Qed.
+Print Assumptions C02_dict_prefix_once.
+
+(* a dictionary attached for indefinite use serves every frame of every later stream and single-call decompression *)
+Theorem C02_dict_sticky :
+  forall (D : Type) (d : D) (ops : list (dop D)),
+  Forall (keeps D) ops -> forall s : dd D, dd_uses D s = UseIndef -> dd_dict D s = Some d ->
+  Forall (fun o => o = Some d) (snd (dd_run D s ops)).
+Proof. exact sticky_dict. Qed.
+Print Assumptions C02_dict_sticky.
